@@ -419,31 +419,27 @@ theorem renderCols_prim_sensitive_aux (K : Consts) (hp hp' : Heap) (byId byId' :
     -- decompose both runs
     have dec : ∀ (hp : Heap) (byId : List (Option Int × String)) (a : Nat) (cs : List Cell),
         renderCols K hp byId a (n :: ns) = .ok cs →
-        ∃ v c cs0, slot hp a n = some v ∧ renderVal K hp byId (hp.length + 1) v = .ok c ∧
+        ∃ c cs0, renderVal K hp byId (hp.length + 1) ((slot hp a n).getD .none) = .ok c ∧
           renderCols K hp byId a ns = .ok cs0 ∧ cs = c :: cs0 := by
       intro hp byId a cs h
       rw [renderCols] at h
       split at h
       · cases h
-      · rename_i v hv
+      · rename_i c hc
         split at h
         · cases h
-        · rename_i c hc
-          split at h
-          · cases h
-          · rename_i cs0 hcs0
-            cases h
-            exact ⟨v, c, cs0, hv, hc, hcs0, rfl⟩
-    obtain ⟨v, c, cs0, hv, hc, hcs0, rfl⟩ := dec hp byId a cs h
-    obtain ⟨v', c', cs0', hv', hc', hcs0', rfl⟩ := dec hp' byId' a' cs' h'
+        · rename_i cs0 hcs0
+          cases h
+          exact ⟨c, cs0, hc, hcs0, rfl⟩
+    obtain ⟨c, cs0, hc, hcs0, rfl⟩ := dec hp byId a cs h
+    obtain ⟨c', cs0', hc', hcs0', rfl⟩ := dec hp' byId' a' cs' h'
     intro heq
     rw [List.cons.injEq] at heq
     by_cases hnf : n = f
     · subst hnf
-      rw [hs] at hv
-      rw [hs'] at hv'
-      cases hv
-      cases hv'
+      rw [hs] at hc
+      rw [hs'] at hc'
+      simp only [Option.getD_some] at hc hc'
       rw [← heq.1] at hc'
       exact hne (renderVal_prim_injective_aux K hp hp' byId byId' _ _ p p' hk c hc hc')
     · have hf' : f ∈ ns := by
